@@ -758,6 +758,48 @@ fn c12_directed(ctx: &WorkerCtx) -> Result<(), Fail> {
         }
     }
     st.class_n("directed: knight-promotion mate available", under);
+    // (a'') the same kind of position through the plugin's stable interface, asked twice on one
+    // bot instance: first with a limit that expires at once, then with one that never expires.
+    // The second search returns by itself (a mate ends the deepening), so it must bring a mating
+    // move and the mate-in-one score, whatever the first question was answered with.
+    if ctx.idx == 0 && crate::c15::plugin_available() {
+        let mut asked = 0u64;
+        let mut tries = 0;
+        while asked < ctx.tier.pick(60, 600) && tries < 2_000_000 {
+            tries += 1;
+            let Some(p) = underpromotion_candidate(&mut g) else { continue };
+            let legal = p.legal();
+            let mates = mating_moves(&p, &legal);
+            if mates.is_empty() {
+                continue;
+            }
+            for q in [p.clone(), p.mirror()] {
+                let ql = q.legal();
+                let qm = mating_moves(&q, &ql);
+                let case = json!({"plugin_session": q.fen()});
+                ctx.about_to_run(&case);
+                let r = guarded(|| crate::c15::plugin_session(&q, &[0, 3, u64::MAX / 4])).unwrap_or_else(Err).map_err(|d| Fail { case: case.clone(), detail: format!("C12 [plugin, one instance asked repeatedly] {d}") })?;
+                let (mv, score, polls, expired) = r[2];
+                if !expired {
+                    let ok_move = mv.map_or(false, |m| qm.contains(&m));
+                    if !ok_move || !score_eq(score, mate1_for(q.turn)) {
+                        return Err(Fail {
+                            case,
+                            detail: format!(
+                                "C12 [plugin, one instance asked repeatedly] `{}` has mate in one [{}]; asked with limits expiring at poll 0 and 3 and then with no limit, the last search returned by itself after {polls} polls with {:?} and score {score:?}",
+                                q.fen(),
+                                fmt_moves(&qm),
+                                mv.map(|m| m.to_string())
+                            ),
+                        });
+                    }
+                }
+                asked += 1;
+            }
+        }
+        st.eval(asked);
+        st.class_n("directed: mate in one asked three times on one plugin instance (limits 0, 3, none)", asked);
+    }
     // (b') many-move positions whose every mating move comes late (index >= 120) in the order in
     // which the implementation's own iterator hands out moves (captures first, then the rest).
     // Found by a constructive search: start from a bare skeleton and keep adding white queens
@@ -863,11 +905,28 @@ fn c12_directed(ctx: &WorkerCtx) -> Result<(), Fail> {
     Ok(())
 }
 
+fn c12_plugin_session_replay(fen: &str) -> Result<(), String> {
+    let q = Pos::from_fen(fen).ok_or("bad fen")?;
+    let ql = q.legal();
+    let qm = mating_moves(&q, &ql);
+    let r = crate::c15::plugin_session(&q, &[0, 3, u64::MAX / 4])?;
+    let (mv, score, polls, expired) = r[2];
+    if !expired && !qm.is_empty() && (!mv.map_or(false, |m| qm.contains(&m)) || !score_eq(score, mate1_for(q.turn))) {
+        return Err(format!("C12 [plugin, one instance asked repeatedly] `{fen}` has mate in one [{}]; the unlimited third search returned by itself after {polls} polls with {:?} and score {score:?}", fmt_moves(&qm), mv.map(|m| m.to_string())));
+    }
+    Ok(())
+}
+
 pub const C12: CheckDef = CheckDef {
     id: "C12",
     worker: |ctx| { c12_directed(ctx)?; ctx.max_shrink.set(400); run_proptest(ctx, 12, ctx.share(ctx.tier.pick(40_000, 1_500_000)), c12_strategy(), eng_json, c12_case) },
-    replay: |v| c12_case(&eng_from(v)?, &mut Stats::new()),
-    rule: "positions from mating-net constructors (lone king on an edge vs king + 1-3 heavy/minor pieces + scattered material), sparse synthetic placements and general roots, followed by playouts; half-move clock forced to 96..100 in a third of the cases; optionally the mated position pre-filled twice in the repetition table. The reference enumerates the mating moves. With the limit expiring at s_1, s_1+1, s_1+7, s_2, s_2+1 and never: positions WITH a mate in one must return a mating move and the mover's MateIn(1) score; positions WITHOUT must never report the mover's MateIn(1); a MateIn(1) score always comes with a move that mates. Non-trivial = position with a mate in one, or with a check that is not mate; distinct by position key.",
+    replay: |v| {
+        if let Some(f) = v.get("plugin_session").and_then(|x| x.as_str()) {
+            return c12_plugin_session_replay(f);
+        }
+        c12_case(&eng_from(v)?, &mut Stats::new())
+    },
+    rule: "positions from mating-net constructors (lone king on an edge vs king + 1-3 heavy/minor pieces + scattered material), sparse synthetic placements and general roots, followed by playouts; half-move clock forced to 96..100 in a third of the cases; optionally the mated position pre-filled twice in the repetition table. The reference enumerates the mating moves. With the limit expiring at s_1, s_1+1, s_1+7, s_2, s_2+1 and never: positions WITH a mate in one must return a mating move and the mover's MateIn(1) score; positions WITHOUT must never report the mover's MateIn(1); a MateIn(1) score always comes with a move that mates. Through the plugin's stable interface, mate-in-one positions are asked three times on one bot instance (limits 0, 3, none): the unlimited search must bring the mate. Non-trivial = position with a mate in one, or with a check that is not mate; distinct by position key.",
     assumptions: &["oracle: refchess (mating move = legal move after which the opponent is in check and has no legal move)", "pass boundaries from the 'start depth' event as in C11"],
     exhaustive: |_| false,
     uses_reference: true,
